@@ -85,3 +85,60 @@ def log_int(rng, lo, hi):
 def nontrivial_record(a):
     a = np.asarray(a)
     return len(a) >= 3 and len(set(a.tolist())) > 1
+
+
+def container_variants(v, floats32=True, arrays_only=False):
+    """the same numbers in other containers / dtypes (label, object): Python list / tuple of floats always; integer ndarray (int64,
+    int32) and list of Python ints when every value is a whole number; float32 ndarray when every value is exactly representable in
+    single precision; a non-contiguous float64 view. A property that quantifies over 'every record' covers all of them."""
+    a = np.asarray(v, dtype=float)
+    out = [] if arrays_only else [('list', [float(x) for x in a]), ('tuple', tuple(float(x) for x in a))]
+    if a.size and np.all(np.isfinite(a)) and np.all(a == np.round(a)) and np.max(np.abs(a)) < 2 ** 31:
+        out.append(('int64', a.astype(np.int64)))
+        out.append(('int32', a.astype(np.int32)))
+        if not arrays_only:
+            out.append(('list-int', [int(x) for x in a]))
+    if floats32 and a.size and np.all(np.isfinite(a)) and np.array_equal(a.astype(np.float32).astype(float), a):
+        out.append(('float32', a.astype(np.float32)))
+    if a.ndim == 1 and a.size:
+        wide = np.empty(2 * a.size, dtype=float)
+        wide[::2] = a
+        wide[1::2] = 12345.0
+        out.append(('strided', wide[::2]))
+    return out
+
+
+def aged_signal(rng, cls, values, dt, **kw):
+    """an eqsig Signal/AccSignal holding (values, dt) that reached this state through a HISTORY instead of the constructor
+    (label, object): built with a record of another length and reset, caches filled before or after the reset, …
+    Every function that takes a signal object must treat these exactly like a fresh object."""
+    values = np.array(values, dtype=float)
+    kind = rng.choice(['fresh', 'reset-other-length', 'reset-same-length', 'read-all', 'read-reset', 'reset-shorter'])
+    if kind == 'fresh':
+        return kind, cls(values, dt, **kw)
+    if kind == 'read-all':
+        s = cls(values, dt, **kw)
+        _touch(s)
+        return kind, s
+    n = len(values)
+    if kind == 'reset-other-length':
+        other = np.array([rng.uniform(-1, 1) for _ in range(n + rng.randint(1, max(2, n)))])
+    elif kind == 'reset-shorter':
+        other = np.array([rng.uniform(-1, 1) for _ in range(max(2, n - rng.randint(1, max(1, n // 2))))])
+    else:
+        other = np.array([rng.uniform(-1, 1) for _ in range(n)])
+    s = cls(other, dt, **kw)
+    if kind == 'read-reset' or rng.random() < 0.5:
+        _touch(s)
+    s.reset_values(values)
+    return kind, s
+
+
+def _touch(s):
+    """fill the lazily cached quantities of a signal object"""
+    for name in ('npts', 'time', 'fa_spectrum', 'fa_frequencies', 'smooth_fa_spectrum', 'velocity', 'displacement', 'pga', 'pgv', 'pgd',
+                 's_a', 's_v', 's_d'):
+        try:
+            getattr(s, name)
+        except Exception:
+            pass
